@@ -136,14 +136,19 @@ where
     }
 
     let t2_cost = state.t2.current_total_cost();
+    let mut victim = None;
     if state.t1.current_total_cost() + t2_cost >= self.capacity {
-      state.replace(self.capacity, key_in_b2);
+      victim = state.replace(self.capacity, key_in_b2);
     }
 
     // Insert the new item into T1.
     state.t1.push_front(key.clone(), cost);
 
-    AdmissionDecision::Admit
+    // A key that replace() stopped tracking must be reported, or it stays resident forever.
+    match victim {
+      Some((victim_key, _)) => AdmissionDecision::AdmitAndEvict(vec![victim_key]),
+      None => AdmissionDecision::Admit,
+    }
   }
 
   fn on_remove(&self, key: &K) {
